@@ -812,6 +812,6 @@ LEVEL_TEXT = (LEVEL_TEXT +
               "eval level (recorded finding) are proved class boundaries.")
 LEVEL_NOTE = ("Trusted: Coq kernel, extraction, OCaml drivers, Rust harness, generators, the shell lexer models (only "
               "bash can be executed here), the table translator.  Which slot is emitted through which escape "
-              "function is proved for fish, PowerShell, elvish and zsh (generator models, tied byte for byte on every run) and "
-              "checked on the real scripts only (oracle) for nushell; zsh level 3 (the eval'd ((...)) action) is oracle-only.")
+              "function is proved for fish, PowerShell, elvish, nushell and zsh (generator models, tied byte for byte on every "
+              "run); zsh level 3 (the eval'd ((...)) action) is oracle-only.")
 # ---- end zsh generator model ----
